@@ -54,6 +54,8 @@ type Exec struct {
 	GoalReached bool
 	Stranded    string
 	Script      []string
+	// RejectClass is the failure class the model expects for a change the device refuses (default INVALID)
+	RejectClass string
 }
 
 // SetRequestOf builds the gNMI request for a list of operations
@@ -231,7 +233,9 @@ func (e *Exec) RunSteps() {
 					idx = uint64(1 + st.RbArg%n)
 				}
 			case "nonexistent":
-				idx = uint64(n + 5 + st.RbArg%3)
+				idx = uint64(n + 1000 + st.RbArg%3)
+			case "index":
+				idx = uint64(st.RbArg)
 			}
 			if idx == 0 {
 				continue
